@@ -376,6 +376,12 @@ class Disposable:
         how = self.spec.get("exit", "ok")
         if how.startswith("gate"):
             await W.sched.gate(f"{self.owner}.d{self.idx}.exit")
+        if how.endswith("hand-back"):
+            # a resource that re-raises the exception it was handed (`except BaseException: ...; raise` around a yield, written out by
+            # hand): for Python that is the same as not handling it - its cleanup did not fail
+            if ev is not None:
+                raise ev
+            return None
         if how.endswith("raise"):
             self.exit_err = DISP_ERR_KINDS[self.spec.get("exc_kind", "plain")](f"{self.owner}.d{self.idx}.exit")
             raise self.exit_err
